@@ -160,6 +160,12 @@ theories/Templ/Template.vos theories/Templ/Template.vok theories/Templ/Template.
 theories/Templ/Template_proofs.vo theories/Templ/Template_proofs.glob theories/Templ/Template_proofs.v.beautified theories/Templ/Template_proofs.required_vo: theories/Templ/Template_proofs.v theories/Base/Prelude.vo theories/Templ/Template.vo
 theories/Templ/Template_proofs.vio: theories/Templ/Template_proofs.v theories/Base/Prelude.vio theories/Templ/Template.vio
 theories/Templ/Template_proofs.vos theories/Templ/Template_proofs.vok theories/Templ/Template_proofs.required_vos: theories/Templ/Template_proofs.v theories/Base/Prelude.vos theories/Templ/Template.vos
+theories/Transcode/Mediator.vo theories/Transcode/Mediator.glob theories/Transcode/Mediator.v.beautified theories/Transcode/Mediator.required_vo: theories/Transcode/Mediator.v theories/Base/Prelude.vo theories/Valid/Normalize.vo
+theories/Transcode/Mediator.vio: theories/Transcode/Mediator.v theories/Base/Prelude.vio theories/Valid/Normalize.vio
+theories/Transcode/Mediator.vos theories/Transcode/Mediator.vok theories/Transcode/Mediator.required_vos: theories/Transcode/Mediator.v theories/Base/Prelude.vos theories/Valid/Normalize.vos
+theories/Transcode/Mediator_proofs.vo theories/Transcode/Mediator_proofs.glob theories/Transcode/Mediator_proofs.v.beautified theories/Transcode/Mediator_proofs.required_vo: theories/Transcode/Mediator_proofs.v theories/Base/Prelude.vo theories/Transcode/Mediator.vo
+theories/Transcode/Mediator_proofs.vio: theories/Transcode/Mediator_proofs.v theories/Base/Prelude.vio theories/Transcode/Mediator.vio
+theories/Transcode/Mediator_proofs.vos theories/Transcode/Mediator_proofs.vok theories/Transcode/Mediator_proofs.required_vos: theories/Transcode/Mediator_proofs.v theories/Base/Prelude.vos theories/Transcode/Mediator.vos
 theories/Props/C01.vo theories/Props/C01.glob theories/Props/C01.v.beautified theories/Props/C01.required_vo: theories/Props/C01.v theories/Base/Prelude.vo theories/Base/Bytes.vo theories/Event/Hash.vo theories/Event/Hash_proofs.vo theories/Generated/C01_gen.vo
 theories/Props/C01.vio: theories/Props/C01.v theories/Base/Prelude.vio theories/Base/Bytes.vio theories/Event/Hash.vio theories/Event/Hash_proofs.vio theories/Generated/C01_gen.vio
 theories/Props/C01.vos theories/Props/C01.vok theories/Props/C01.required_vos: theories/Props/C01.v theories/Base/Prelude.vos theories/Base/Bytes.vos theories/Event/Hash.vos theories/Event/Hash_proofs.vos theories/Generated/C01_gen.vos
@@ -235,6 +241,9 @@ theories/Props/C15.vos theories/Props/C15.vok theories/Props/C15.required_vos: t
 theories/Props/C16.vo theories/Props/C16.glob theories/Props/C16.v.beautified theories/Props/C16.required_vo: theories/Props/C16.v theories/Base/Prelude.vo theories/Templ/Template.vo theories/Templ/Template_proofs.vo
 theories/Props/C16.vio: theories/Props/C16.v theories/Base/Prelude.vio theories/Templ/Template.vio theories/Templ/Template_proofs.vio
 theories/Props/C16.vos theories/Props/C16.vok theories/Props/C16.required_vos: theories/Props/C16.v theories/Base/Prelude.vos theories/Templ/Template.vos theories/Templ/Template_proofs.vos
+theories/Props/C17.vo theories/Props/C17.glob theories/Props/C17.v.beautified theories/Props/C17.required_vo: theories/Props/C17.v theories/Base/Prelude.vo theories/Transcode/Mediator.vo theories/Transcode/Mediator_proofs.vo
+theories/Props/C17.vio: theories/Props/C17.v theories/Base/Prelude.vio theories/Transcode/Mediator.vio theories/Transcode/Mediator_proofs.vio
+theories/Props/C17.vos theories/Props/C17.vok theories/Props/C17.required_vos: theories/Props/C17.v theories/Base/Prelude.vos theories/Transcode/Mediator.vos theories/Transcode/Mediator_proofs.vos
 theories/Props/C18.vo theories/Props/C18.glob theories/Props/C18.v.beautified theories/Props/C18.required_vo: theories/Props/C18.v theories/Base/Prelude.vo theories/Event/Merge.vo theories/Event/Merge_proofs.vo theories/Event/Stream.vo theories/Event/Collection.vo theories/Event/Collection_proofs.vo
 theories/Props/C18.vio: theories/Props/C18.v theories/Base/Prelude.vio theories/Event/Merge.vio theories/Event/Merge_proofs.vio theories/Event/Stream.vio theories/Event/Collection.vio theories/Event/Collection_proofs.vio
 theories/Props/C18.vos theories/Props/C18.vok theories/Props/C18.required_vos: theories/Props/C18.v theories/Base/Prelude.vos theories/Event/Merge.vos theories/Event/Merge_proofs.vos theories/Event/Stream.vos theories/Event/Collection.vos theories/Event/Collection_proofs.vos
